@@ -16,9 +16,11 @@ package main
 import (
 	"bufio"
 	"crypto/tls"
+	"encoding/json"
 	"fmt"
 	"io"
 	"net"
+	"net/http"
 	"os"
 	"strings"
 	"sync"
@@ -117,8 +119,13 @@ func main() {
 	})
 	nHand := run.N(32, 320)
 	run.ParallelRange(1000000, nHand, 32, scenarioHandoff)
+	startPluginServer()
+	run.ParallelRange(2000000, run.N(12, 96), 12, scenarioPluginReject)
 	for _, s := range servers {
 		s.srv.Close()
+	}
+	if pluginSrv != nil {
+		pluginSrv.srv.Close()
 	}
 	run.Finish(25)
 }
@@ -794,4 +801,103 @@ func scenarioHandoff(c *h.Case) {
 	if c.Idx < 1000004 {
 		run.Sample(map[string]any{"scenario": "handoff", "path": path, "closed": closedOK})
 	}
+}
+
+// ---------------------------------------------------------------------------------------------
+// E. user connections refused by a NewUserConn server plugin must be closed, not left open
+
+var pluginSrv *serverSet
+
+func startPluginServer() {
+	l, err := net.Listen("tcp", "127.0.0.1:0")
+	if err != nil {
+		fmt.Fprintln(os.Stderr, "plugin stub:", err)
+		os.Exit(h.ExitHarnessError)
+	}
+	go http.Serve(l, http.HandlerFunc(func(w http.ResponseWriter, r *http.Request) {
+		var req struct {
+			Content struct {
+				ProxyName string `json:"proxy_name"`
+			} `json:"content"`
+		}
+		_ = json.NewDecoder(r.Body).Decode(&req)
+		w.Header().Set("Content-Type", "application/json")
+		switch {
+		case strings.HasSuffix(req.Content.ProxyName, ".rej"):
+			_, _ = w.Write([]byte(`{"reject":true,"reject_reason":"policy","unchange":true}`))
+		case strings.HasSuffix(req.Content.ProxyName, ".err"):
+			w.WriteHeader(500)
+		default:
+			_, _ = w.Write([]byte(`{"reject":false,"unchange":true}`))
+		}
+	}))
+	ps := pa.Block(3)
+	lo, hi := 21860, 21990
+	srv, err := h.StartServerText(prop, fmt.Sprintf(`
+bindAddr = "127.0.0.1"
+bindPort = %d
+vhostHTTPSPort = %d
+tcpmuxHTTPConnectPort = %d
+auth.token = "%s"
+userConnTimeout = %d
+allowPorts = [{start=%d,end=%d}]
+[[httpPlugins]]
+name = "gate"
+addr = "%s"
+path = "/h"
+ops = ["NewUserConn"]
+`, ps[0], ps[1], ps[2], token, userConnTimeoutS, lo, hi, l.Addr().String()))
+	if err != nil {
+		fmt.Fprintln(os.Stderr, "plugin server:", err)
+		os.Exit(h.ExitHarnessError)
+	}
+	pluginSrv = &serverSet{srv: srv, bind: ps[0], https: ps[1], mux: ps[2], lo: lo, hi: hi, mp: 5}
+}
+
+func scenarioPluginReject(c *h.Case) {
+	ss := pluginSrv
+	p, err := h.DialPeer(h.PeerOpts{ServerPort: ss.bind, TCPMux: true, Token: token, AutoWork: true, WorkHandler: h.IdentBackend("PG", token, false, false, nil)})
+	if err != nil || !p.LoggedIn() {
+		run.Inconclusive("login failed")
+		return
+	}
+	defer p.Close()
+	verdict := []string{"rej", "err"}[c.Idx%2]
+	okName, badName := fmt.Sprintf("c%d.ok", c.Idx), fmt.Sprintf("c%d.%s", c.Idx, verdict)
+	okPort, badPort := ss.remotePort(), ss.remotePort()
+	for _, m := range []*msg.NewProxy{{ProxyName: okName, ProxyType: "tcp", RemotePort: okPort}, {ProxyName: badName, ProxyType: "tcp", RemotePort: badPort}} {
+		if r, err := p.NewProxy(m, 10*time.Second); err != nil || r.Error != "" {
+			run.Inconclusive("registration failed")
+			return
+		}
+	}
+	// admitted user: bridged
+	if id, err := h.AskIdent(fmt.Sprintf("127.0.0.1:%d", okPort), closeGrace); err != nil || id != "PG|"+okName {
+		c.Violation("user-admitted-by-plugin-not-bridged", "plugin accepted the user connection but it was not bridged: %q %v", id, err)
+	}
+	// refused users: must be closed by the server (GC is off: a connection merely dropped stays open)
+	n := 1 + c.Rng.Intn(4)
+	var ucs []net.Conn
+	for i := 0; i < n; i++ {
+		uc, err := net.DialTimeout("tcp", fmt.Sprintf("127.0.0.1:%d", badPort), 5*time.Second)
+		if err != nil {
+			continue
+		}
+		defer uc.Close()
+		_, _ = uc.Write([]byte("N000000000000000"))
+		ucs = append(ucs, uc)
+	}
+	closedOK := h.Eventually(closeGrace, func() bool {
+		for _, uc := range ucs {
+			if connOpen(uc) {
+				return false
+			}
+		}
+		return true
+	})
+	run.Count("users_refused_by_plugin", int64(len(ucs)))
+	if !closedOK {
+		c.Violation("user-connection-left-open-after-plugin-refusal", "NewUserConn plugin answered %q for %d user connection(s): still open %v later (neither bridged nor closed)", verdict, len(ucs), closeGrace)
+	}
+	run.Distinct(fmt.Sprintf("plugin-reject|%s|%d|%d", verdict, n, c.Idx%8))
 }
